@@ -1633,6 +1633,13 @@ class Interp:
             r = self.call_builtin(callee.name, args, kwargs, node, frame)
             if r is not NotImplemented:
                 return r
+        fm = self.opts.get("foreign_model")
+        if fm is not None and isinstance(callee, (Foreign, Term)):
+            r = fm(self, callee, args, kwargs)
+            if r is not None:
+                return r
+        if isinstance(callee, Term) and callee.op == "attr" and isinstance(callee.args[0], Cls) and callee.args[1] == "__subclasses__" and not args:
+            return Lst([Cls(c) for c in callee.args[0].ci.subclasses])
         if isinstance(callee, Term) and callee.op == "attr" and isinstance(callee.args[0], Cls) and callee.args[1] == "mro" and not args:
             return Lst([Cls(c) for c in callee.args[0].ci.mro] + [Builtin("object")])
         if isinstance(callee, Term) and callee.op == "attr":
@@ -1657,6 +1664,15 @@ class Interp:
                 self.invalidate_attrs(callee.self_val, modset(self.p, fi))
             self.maybe_raise(ev)
             return t
+        if isinstance(callee, Cls) and self.opts.get("instantiate") and self.opts["instantiate"](callee.ci) and not starkw:
+            n = self.__dict__.setdefault("_obj_counter", {})
+            n[callee.ci.name] = n.get(callee.ci.name, 0) + 1
+            o = Obj(callee.ci, {}, label=f"{callee.ci.name}#{n[callee.ci.name]}")
+            self.emit("new-obj", node, obj=o, cls=callee.ci, args=args, kwargs=kwargs)
+            init = callee.ci.find_method("__init__")
+            if init is not None:
+                self.run_function(Fn(init, o), args, kwargs, node)
+            return o
         if isinstance(callee, Cls):
             hook = self.opts.get("construct")
             if hook is not None:
